@@ -1,6 +1,7 @@
 """C07 — slot accounting: tower model (memory = disk = wire, conservation monitor) + the f32 slot formula (slots_check)."""
 import slots_check
 import tower_common
+from props import c10
 
 TARGETS = ["theories/Properties/C07.v", "theories/Properties/C07_ledger.v"] + slots_check.SLOTS_TARGETS
 MON = {"C07"}
@@ -12,6 +13,9 @@ def run(ctx):
         # the clause 'never less than one' is decided at the HTTP boundary (C07_empty_blob_refused_at_http);
         # the pure function still returns 0 for n = 0 (theorem C07_slots_ge_one_refuted)
         slots_check.run_slots(ctx, report_zero_blob=False)
+        # concurrent registrations / charges / refunds of one user: no slot update may be lost (controlled schedules on
+        # the real tower; the recorded double charge of two identical submissions is C10's known finding)
+        c10.conc_probe(ctx, "C07", {"ledger"}, case_filter=("reg", "add"))
     return tower_common.check(ctx, "C07", TARGETS, MON, KNOWN, allow_axioms=slots_check.SLOTS_AXIOMS,
                               extra_trusted=slots_check.SLOTS_TRUSTED, extra_run=extra)
 
